@@ -183,6 +183,112 @@ pub fn diff(a: &[Line], b: &[Line]) -> Vec<Diff> {
     out
 }
 
+// ------------------------------------------------------------------------------------------------
+// Order facts in the vocabulary of `refmodel::order` (same paths, same canonical rendering of
+// directive applications), so that the built schema can be compared with the order the SOURCE
+// document implies. Only observation: the expected side never sees apollo values.
+
+fn canon_value(v: &ast::Value) -> String {
+    match v {
+        ast::Value::Int(i) => match i.as_str().parse::<i64>() {
+            Ok(i) => i.to_string(),
+            Err(_) => "<int>".into(),
+        },
+        ast::Value::Boolean(b) => b.to_string(),
+        ast::Value::Null => "null".into(),
+        ast::Value::Enum(e) => e.to_string(),
+        ast::Value::Variable(n) => format!("${n}"),
+        ast::Value::Float(_) => "<float>".into(),
+        ast::Value::String(_) => "<string>".into(),
+        ast::Value::List(_) => "<list>".into(),
+        ast::Value::Object(_) => "<object>".into(),
+    }
+}
+
+fn canon_directive(d: &ast::Directive) -> String {
+    if d.arguments.is_empty() {
+        return format!("@{}", d.name);
+    }
+    let args: Vec<String> = d.arguments.iter().map(|a| format!("{}: {}", a.name, canon_value(&a.value))).collect();
+    format!("@{}({})", d.name, args.join(", "))
+}
+
+fn canon_ast_dirs(d: &ast::DirectiveList) -> String {
+    d.iter().map(|x| canon_directive(x)).collect::<Vec<_>>().join(" ")
+}
+
+fn canon_schema_dirs(d: &schema::DirectiveList) -> String {
+    d.iter().map(|x| canon_directive(&x.node)).collect::<Vec<_>>().join(" ")
+}
+
+fn order_args(out: &mut Vec<(String, String)>, owner: &str, args: &[Node<ast::InputValueDefinition>]) {
+    out.push((format!("{owner}.args"), args.iter().map(|a| a.name.to_string()).collect::<Vec<_>>().join(",")));
+    for (i, a) in args.iter().enumerate() {
+        let dup = args[..i].iter().filter(|b| b.name == a.name).count();
+        let ap = if dup == 0 { format!("{owner}({})", a.name) } else { format!("{owner}({}#{})", a.name, dup) };
+        out.push((format!("{ap}.directives"), canon_ast_dirs(&a.directives)));
+    }
+}
+
+/// `(path, value)` of every ordered collection; `skip_type` / `skip_directive` name the entries
+/// that are left out of the `<types>` / `<directive-definitions>` lists (built-ins).
+pub fn order_facts(s: &Schema, skip_type: &dyn Fn(&str) -> bool, skip_directive: &dyn Fn(&str) -> bool) -> Vec<(String, String)> {
+    let mut out: Vec<(String, String)> = vec![];
+    out.push(("<types>".into(), s.types.keys().filter(|k| !skip_type(k.as_str())).map(|k| k.to_string()).collect::<Vec<_>>().join(",")));
+    for (name, ty) in &s.types {
+        let tn = format!("type {name}");
+        out.push((format!("{tn}.directives"), canon_schema_dirs(ty.directives())));
+        let implements = |i: &apollo_compiler::collections::IndexSet<schema::ComponentName>| i.iter().map(|n| n.name.to_string()).collect::<Vec<_>>().join(",");
+        let mut fields = |fs: &apollo_compiler::collections::IndexMap<apollo_compiler::Name, schema::Component<ast::FieldDefinition>>| {
+            out.push((format!("{tn}.fields"), fs.keys().map(|k| k.to_string()).collect::<Vec<_>>().join(",")));
+            for (fname, f) in fs {
+                let p = format!("{tn}.{fname}");
+                out.push((format!("{p}.directives"), canon_ast_dirs(&f.directives)));
+                order_args(&mut out, &p, &f.arguments);
+            }
+        };
+        match ty {
+            ExtendedType::Scalar(_) => {}
+            ExtendedType::Object(o) => {
+                let i = implements(&o.implements_interfaces);
+                fields(&o.fields);
+                out.push((format!("{tn}.implements"), i));
+            }
+            ExtendedType::Interface(o) => {
+                let i = implements(&o.implements_interfaces);
+                fields(&o.fields);
+                out.push((format!("{tn}.implements"), i));
+            }
+            ExtendedType::Union(u) => out.push((format!("{tn}.members"), u.members.iter().map(|n| n.name.to_string()).collect::<Vec<_>>().join(","))),
+            ExtendedType::Enum(e) => {
+                out.push((format!("{tn}.values"), e.values.keys().map(|k| k.to_string()).collect::<Vec<_>>().join(",")));
+                for (vn, v) in &e.values {
+                    out.push((format!("{tn}.{vn}.directives"), canon_ast_dirs(&v.directives)));
+                }
+            }
+            ExtendedType::InputObject(i) => {
+                out.push((format!("{tn}.fields"), i.fields.keys().map(|k| k.to_string()).collect::<Vec<_>>().join(",")));
+                for (fname, f) in &i.fields {
+                    out.push((format!("{tn}.{fname}.directives"), canon_ast_dirs(&f.directives)));
+                }
+            }
+        }
+    }
+    out.push((
+        "<directive-definitions>".into(),
+        s.directive_definitions.keys().filter(|k| !skip_directive(k.as_str())).map(|k| k.to_string()).collect::<Vec<_>>().join(","),
+    ));
+    for (name, d) in &s.directive_definitions {
+        order_args(&mut out, &format!("@{name}"), &d.arguments);
+    }
+    let sd = &s.schema_definition;
+    out.push(("<schema>.directives".into(), canon_schema_dirs(&sd.directives)));
+    for (k, r) in [("query", &sd.query), ("mutation", &sd.mutation), ("subscription", &sd.subscription)] {
+        out.push((format!("<schema>.{k}"), r.as_ref().map(|n| n.name.to_string()).unwrap_or_else(|| "-".into())));
+    }
+    out
+}
+
 /// Diagnostic messages without file / line information.
 pub fn messages(errors: &apollo_compiler::validation::DiagnosticList) -> Vec<String> {
     errors.iter().map(|d| d.error.to_string()).collect()
